@@ -314,6 +314,9 @@ func (g *G) tryStmt(depth int) *Node {
 	n.Parts = parts(g.kw("try"), t("{"), nodesToParts(ss), t("}"))
 	var cs []*Node
 	nc := g.R.Intn(3)
+	if g.R.Chance(1, 6) {
+		nc = g.R.Range(3, 4)
+	}
 	fin := g.R.Bool() || nc == 0
 	for i := 0; i < nc; i++ {
 		var tys []*Node
